@@ -411,8 +411,8 @@ Qed.
 Lemma key_fields_length fx H ho vo i q f :
   key_fields fx H ho vo i q = Some f ->
   match i_kind i with
-  | KIntro => length f = 3
-  | KGen => length f = 2
+  | KIntro => length f = 4
+  | KGen => length f = 3
   | KRemote => exists n, length f = 6 + 2 * n
   | KCtx => exists n, length f = 7 + 2 * n
   end.
@@ -455,9 +455,12 @@ Proof.
   destruct (i_kind (st_inst a)) eqn:Kia; destruct (i_kind (st_inst b)) eqn:Kib;
     try (exfalso; repeat match goal with X : exists _, _ |- _ => destruct X end; lia).
   - (* introspection *)
-    injection Fa as <-. injection Fb as Ee _ Ec. eexists. rewrite (Eep (eq_sym Ee)), Ec. split; reflexivity.
+    remember (ttl_hash (i_ttl (st_inst a))) as ta eqn:Hta. remember (ttl_hash (i_ttl (st_inst b))) as tb eqn:Htb.
+    injection Fa as <-. injection Fb as Ee _ Ec Et. eexists. rewrite (Eep (eq_sym Ee)), Ec, Et. split; reflexivity.
   - (* generic authenticator *)
-    injection Fa as <-. injection Fb as Ee Ec. eexists. rewrite (Eep (eq_sym Ee)), Ec. split; reflexivity.
+    remember (ttl_hash (Some (ttl_val (st_inst a)))) as ta eqn:Hta.
+    remember (ttl_hash (Some (ttl_val (st_inst b)))) as tb eqn:Htb.
+    injection Fa as <-. injection Fb as Ee Ec Et. eexists. rewrite (Eep (eq_sym Ee)), Ec, Et. split; reflexivity.
   - (* remote authorizer *)
     destruct (rendered (st_inst a) (st_req a)) as [[va pa]|] eqn:Ra; [|discriminate].
     destruct (rendered (st_inst b) (st_req b)) as [[vb pb]|] eqn:Rb; [|discriminate].
@@ -765,9 +768,9 @@ Qed.
     the guard of F2 (F3) is not needed. *)
 Theorem cache_transparent : forall fx H w h,
   injective H -> wf_history h ->
-  (fx2 fx = true \/ g_F2 h = false) -> (fx3 fx = true \/ g_F3 h = false) ->
-  (fx10 fx = true \/ g_F10 h = false) ->
-  g_F4 fx H h = false -> g_F6 h = false -> g_F7 h = false ->
+  (fx2 fx = true \/ g_F2 fx H h = false) -> (fx3 fx = true \/ g_F3 fx H h = false) ->
+  (fx10 fx = true \/ g_F10 fx H h = false) ->
+  g_F4 fx H h = false -> g_F6 fx H h = false -> g_F7 fx H h = false ->
   map sr_out (run_cached fx H w [] h) = map fst (run_fresh w h).
 Proof.
   intros fx H w h Hinj [Wf Js] G2 G3 G10 G4 G6 G7. apply cache_transparent_steps.
@@ -782,24 +785,29 @@ Proof.
     - destruct (policy_ok (st_inst s) r0) eqn:P; [|discriminate]. injection Fs as ->.
       rewrite P. now rewrite andb_false_r. }
   destruct (exists_pair_false _ h a b G4 Ia Ib) as [->|[P4 _]]; [now apply Self|].
+  pose proof (same_key_intro fx H a b k Ka Kb) as SK.
   destruct (exists_pair_false _ h a b G6 Ia Ib) as [->|[P6 _]]; [now apply Self|].
   destruct (exists_pair_false _ h a b G7 Ia Ib) as [->|[P7 _]]; [now apply Self|].
+  unfold keyed in P6, P7. rewrite SK in P6, P7. simpl in P6, P7.
   assert (P2 : fx2 fx = true \/ p_F2 a b = false).
-  { destruct G2 as [G2|G2]; auto. destruct (exists_pair_false _ h a b G2 Ia Ib) as [->|[P2 _]]; auto.
-    right. unfold p_F2. now rewrite !strs_eqb_refl', andb_false_r. }
+  { destruct G2 as [G2|G2]; auto. destruct (exists_pair_false _ h a b G2 Ia Ib) as [->|[P2 _]].
+    - right. unfold p_F2. now rewrite !strs_eqb_refl', andb_false_r.
+    - right. unfold keyed in P2. now rewrite SK in P2. }
   assert (P3 : fx3 fx = true \/ p_F3 a b = false).
-  { destruct G3 as [G3|G3]; auto. destruct (exists_pair_false _ h a b G3 Ia Ib) as [->|[P3 _]]; auto.
-    right. unfold p_F3. now rewrite (list_eqb_refl _ expr_eqb_eq_refl), andb_false_r. }
+  { destruct G3 as [G3|G3]; auto. destruct (exists_pair_false _ h a b G3 Ia Ib) as [->|[P3 _]].
+    - right. unfold p_F3. now rewrite (list_eqb_refl _ expr_eqb_eq_refl), andb_false_r.
+    - right. unfold keyed in P3. now rewrite SK in P3. }
   assert (P10 : fx10 fx = true \/ p_F10 a b = false).
-  { destruct G10 as [G10|G10]; auto. destruct (exists_pair_false _ h a b G10 Ia Ib) as [->|[P10 _]]; auto.
-    right. unfold p_F10. destruct (i_session (st_inst b)); simpl; now rewrite andb_false_r. }
+  { destruct G10 as [G10|G10]; auto. destruct (exists_pair_false _ h a b G10 Ia Ib) as [->|[P10 _]].
+    - right. unfold p_F10. destruct (i_session (st_inst b)); simpl; now rewrite andb_false_r.
+    - right. unfold keyed in P10. now rewrite SK in P10. }
   eapply (pair_guards_compatible fx H w a b k r); eauto.
 Qed.
 
 (** the same for the tree with the three repairs *)
 Corollary cache_transparent_repaired : forall H w h,
   injective H -> wf_history h ->
-  g_F4 fx_all H h = false -> g_F6 h = false -> g_F7 h = false ->
+  g_F4 fx_all H h = false -> g_F6 fx_all H h = false -> g_F7 fx_all H h = false ->
   map sr_out (run_cached fx_all H w [] h) = map fst (run_fresh w h).
 Proof. intros H w h Hi W. apply cache_transparent; auto. Qed.
 
@@ -857,10 +865,10 @@ Definition ok_history : list step :=
     and of [identical_requests_hit] (its third request repeats the first) *)
 Theorem nonvacuous :
   wf_history ok_history /\
-  g_F1 ok_history (Some 0) = false /\ g_F2 ok_history = false /\ g_F3 ok_history = false /\
-  g_F10 ok_history = false /\
+  g_F1 ok_history (Some 0) = false /\
+  (forall fx H, g_F2 fx H ok_history = false /\ g_F3 fx H ok_history = false /\ g_F10 fx H ok_history = false /\
+                g_F6 fx H ok_history = false /\ g_F7 fx H ok_history = false) /\
   (forall fx H, (forall x, String.length (H x) = 32) -> g_F4 fx H ok_history = false) /\
-  g_F6 ok_history = false /\ g_F7 ok_history = false /\
   (exists a b, nth_error ok_history 0 = Some a /\ nth_error ok_history 2 = Some b /\ same_request a b = true /\
                enabled (st_inst a) = true /\ order_free (st_inst a) = true /\
                exists r, fresh_of w_world a = OAllow r).
@@ -873,6 +881,11 @@ Proof.
     + intros a b Ia Ib.
       repeat (destruct Ia as [<-|Ia]; [repeat (destruct Ib as [<-|Ib]; [intro E; try reflexivity; discriminate E|]); destruct Ib|]).
       destruct Ia.
+  - intros fx H.
+    assert (KL : forall p a b, keyed fx H p a b = true -> p a b = true).
+    { unfold keyed. intros p a b E. now apply andb_true_iff in E as [_ E]. }
+    splits; [apply (exists_pair_mono _ p_F2) | apply (exists_pair_mono _ p_F3) | apply (exists_pair_mono _ p_F10)
+            | apply (exists_pair_mono _ p_F6) | apply (exists_pair_mono _ p_F7)]; try apply KL; reflexivity.
   - intros fx H L. unfold g_F4. apply (exists_pair_mono _ (p_F4_shift fx H)); [apply p_F4_in_shift|].
     destruct fx as [[] f2 f3 f10]; cbv -[String.length Nat.eqb Nat.leb negb orb andb]; rewrite !L; reflexivity.
   - do 2 eexists. splits; try reflexivity. eexists. reflexivity.
